@@ -7,6 +7,7 @@ CONSTANTS
   LongSizes = {40, 300}
   LongRuns <- RunsQuick
   FullQueries = 41
+  PauseSizes = {300}
   DevSets <- OnlyFixed
 SPECIFICATION MCFairSpec
 INVARIANTS TypeOK ResultInv PlanetLayoutOK RequestBoundInv BracketInv KFCoverInv RunAgrees
